@@ -29,7 +29,7 @@ man = {
     "setup_cmd": "./check setup",
     "hooks": {
         "guard": "verif",
-        "enable": "go build -tags verif -overlay harness/overlay.json (add-only //go:build verif files injected through the overlay; nothing is written under /repo)",
+        "enable": "go build -tags verif -overlay harness/overlay/<ID>.json (add-only //go:build verif files injected through the overlay; nothing is written under /repo)",
         "baseline_off_cmd": "cd /repo && GOFLAGS=-mod=mod GOPROXY=off GOSUMDB=off GOTOOLCHAIN=local go test -vet=off -count=1 ./...",
         "source_commits": [],
         "add_only": True,
